@@ -462,7 +462,7 @@ def _sib(r, v):
         out = [None, 1, "1.0"]
         if v == v and abs(v) != math.inf:
             out += [math.nextafter(v, math.inf), math.nextafter(v, -math.inf), v + 1.0, v - 0.5,
-                    v * (1 + 2e-9), v * (1 + 5e-10), -v]
+                    v * (1 + 2e-9), v * (1 + 5e-10), v * (1 - 6e-10), v * (1 + 1.2e-9), -v]
             if v == int(v) and abs(v) < 2 ** 60:
                 out.append(int(v))
         out += [math.nan, math.inf]
